@@ -1453,7 +1453,11 @@ class SMTFormula(Formula):
             f: pickle.dumps(v) for f, v in self.__dict__.items() if f != "formula"
         }
         # result["formula"] = self.formula.sexpr().encode("utf-8")
-        result["formula"] = smt_expr_to_str(self.formula).encode("utf-8")
+        # Quotes have to be escaped as in SMT-LIB (doubled), not as in ISLa's
+        # concrete syntax, since `__setstate__` passes the text directly to Z3.
+        result["formula"] = smt_expr_to_str(
+            self.formula, smtlib_quotes=True
+        ).encode("utf-8")
         return result
 
     def __setstate__(self, state: Dict[str, bytes]) -> None:
@@ -1464,7 +1468,6 @@ class SMTFormula(Formula):
         ]
 
         formula = state["formula"].decode("utf-8")
-        formula = formula.replace(r"\"", r"\"")
         z3_constr = z3.parse_smt2_string(
             escape_non_ascii_smt(f"(assert {formula})"),
             decls={
